@@ -207,7 +207,7 @@ func (d *structDesc) fromDefsFields(ff []defs.Field) {
 		}
 	}
 	d.maxID = maxFieldID
-	d.fieldIdx = make([]int, maxFieldID+1)
+	d.fieldIdx = make([]int, int(maxFieldID)+1)
 	for i := range d.fieldIdx {
 		d.fieldIdx[i] = -1
 	}
